@@ -31,9 +31,12 @@ def boxes(draw, n):
     return out
 
 
-def _alg(name, bxs, m=2):
+def _alg(name, bxs, m=2, ptype=None):
     import artap.algorithm_swarm as sw
     ps = [{"name": "x%d" % i, "bounds": list(b)} for i, b in enumerate(bxs)]
+    for p_, t_ in zip(ps, ptype or []):
+        if t_:
+            p_["parameter_type"] = t_
     cs = [{"name": "f%d" % j, "criteria": "minimize"} for j in range(m)]
     prob = make_problem(ps, cs, lambda ind: [0.0] * m)
     return prob, getattr(sw, name)(prob)
@@ -131,10 +134,19 @@ def velocity_cases(draw):
 
     def pos():
         return [b[0] + draw(far) * (b[1] - b[0]) for b in bxs]
+    # some parameters are declared as integers (integer bounds; ranges 3, 7, ... have a half range of k + 0.5)
+    ptype = [None] * n
+    if draw(st.integers(0, 3)) == 0:
+        for j in range(n):
+            if draw(st.booleans()):
+                lo = draw(st.integers(-8, 8))
+                bxs[j] = [float(lo), float(lo + draw(st.sampled_from([1, 2, 3, 4, 7, 10, 11])))]
+                ptype[j] = "integer"
     parts = [{"x": pos(), "best": pos()} for _ in range(draw(st.integers(1, 4)))]
     leaders = [pos() for _ in range(draw(st.integers(1, 3)))]
     return {"alg": draw(st.sampled_from(ALGS)), "boxes": bxs, "parts": parts, "leaders": leaders,
             "seed": draw(st.integers(0, 2 ** 31)), "v": [draw(st.floats(-1e9, 1e9)) for _ in range(n)],
+            "ptype": ptype,
             # the same algorithm object worked on another box of the same dimension before (a study that edits the
             # bounds in place between two runs): limits follow the box declared at the time of the update
             "pre": draw(st.one_of(st.none(), st.none(), boxes(n)))}
@@ -146,7 +158,7 @@ def check_velocity(case):
     prob = None
     try:
         with guard("velocity"):
-            prob, alg = _alg(case["alg"], case.get("pre") or bxs)
+            prob, alg = _alg(case["alg"], case.get("pre") or bxs, ptype=case.get("ptype"))
             if case.get("pre"):
                 _warm_up(alg, case["pre"], case["seed"])
                 for p_, b in zip(prob.parameters, bxs):
@@ -182,7 +194,8 @@ def check_velocity(case):
     finally:
         if prob is not None:
             dispose(prob)
-    return {"nt": True, "classes": [case["alg"]] + (["box-edited"] if case.get("pre") else [])}
+    return {"nt": True, "classes": [case["alg"]] + (["box-edited"] if case.get("pre") else []) + (
+        ["integer-parameters"] if any(case.get("ptype") or []) else [])}
 
 
 def _warm_up(alg, bxs, seed):
